@@ -31,7 +31,7 @@ LEVEL = "exploration"
 SIZES = (1, 17, 16384, 16385, 40000)
 UNIFORM = (1, 2, 3, 5, 7, 64, 1000)
 RULE = (
-    "write scripts: 1..3 writes per side with sizes from {1,17,16384,16385,40000} (position-dependent plaintext); library as TLS "
+    "write scripts: 1..3 writes per side with sizes from {1,17,16384,16385,40000} (position-dependent plaintext) plus one 300000-byte write per direction; library as TLS "
     "client and as TLS server; TLS 1.2 and TLS 1.3 pinned; reader loop (recv or recv_into, buffer 65536 or 1000) and writer "
     "(send_all or send_all_from_iterable with an empty chunk inside) as two concurrent tasks started in either order; peer "
     "writing at once (duplex) or only after it has read every library byte (lib-first). Ciphertext delivery: at EVERY relay "
@@ -441,6 +441,14 @@ def jobs(tier: str) -> list[dict]:
     for pair in UNIFORM_PAIRS[tier]:
         for n in UNIFORM:
             out.append({"kind": "uniform", "tier": tier, "pair": [list(pair[0]), list(pair[1])], "n": n})
+    # (G) one write larger than 256 KiB in each direction (ciphertext backlog larger than any internal flush / buffer unit):
+    # default delivery (quick) / deviation bound 1 (thorough), every version/role, both send paths
+    for ci, (v, r) in enumerate(vr):
+        for si, send in enumerate(("send_all", "iter")):
+            for lw, pw in (((300000,), (17,)), ((17,), (300000,))):
+                recv = ("recv", "recv_into")[(ci + si) % 2]
+                out.append({"kind": "explore", "tier": tier, "bound": 0 if tier == "quick" else 1,
+                            "cfgs": [_base("async", v, r, recv, send, lw, pw, gate="lib-first")]})
     # (F) second configuration: AsyncTLSStreamTransport over the REAL asyncio socket adapter on a FakeSocket
     group = []
     for p, pair in enumerate(DEEP_PAIRS):
